@@ -23,7 +23,7 @@ Open Scope Z_scope.
 Theorem C15_translation_matches_model : forall k e level n os_raw aff cg loky_env,
   eff_gen k e level n = eff_model k e level n /\
   cpu_count os_raw aff cg loky_env false = Ok (cpu_count_model os_raw aff cg loky_env).
-Proof. intros. split; [apply eff_gen_eq_model | apply gen_cpu_count_eq]. Qed.
+Proof. exact C15_translation_matches_model_holds. Qed.
 
 (* a positive n_jobs is the number of workers, a negative one means cpus+1+n but at least 1; the result is
    >= 1 -- for every backend class, whenever no nesting guard fires (for all n <> 0 and all cpu counts) *)
@@ -32,43 +32,29 @@ Theorem C15_resolve : forall k e level n,
   exists v, eff_gen k e level n = Ok v /\ v >= 1 /\
             v = match k with KSeq => 1
                 | _ => if n <? 0 then Z.max (e_cpus e + 1 + n) 1 else n end.
-Proof.
-  intros k e level n Hn Hu. rewrite eff_gen_eq_model, (eff_unguarded k e level n Hn Hu).
-  eexists; split; [reflexivity|]. split; [|reflexivity].
-  destruct k; [lia|apply resolve_ge1; assumption..].
-Qed.
+Proof. exact C15_resolve_holds. Qed.
 
 (* with at least one usable CPU, a negative n_jobs never exceeds the CPU count *)
 Theorem C15_negative_le_cpus : forall k e level n v,
   n < 0 -> 1 <= e_cpus e -> eff_gen k e level n = Ok v -> 1 <= v <= e_cpus e.
-Proof.
-  intros k e level n v Hn Hc H. rewrite eff_gen_eq_model in H. pose proof (eff_ge1 _ _ _ _ _ H) as G.
-  split; [lia|]. pose proof (resolve_le_cpus (e_cpus e) n Hn Hc) as R.
-  destruct k; cbn [eff_model] in H; unfold pool_eff in H;
-  repeat match type of H with
-         | context [if ?c then _ else _] => destruct c
-         end; inversion H; subst; lia.
-Qed.
+Proof. exact C15_negative_le_cpus_holds. Qed.
 
 (* whatever the environment, a successful resolution is >= 1 *)
 Theorem C15_at_least_one : forall k e level n v, eff_gen k e level n = Ok v -> v >= 1.
-Proof. intros k e level n v H. rewrite eff_gen_eq_model in H. exact (eff_ge1 _ _ _ _ _ H). Qed.
+Proof. exact C15_at_least_one_holds. Qed.
 
 (* n_jobs = 0 is rejected with ValueError: by Sequential, Threading and Loky in EVERY environment, by
    Multiprocessing in every environment in which none of its nesting guards fires *)
 Theorem C15_zero_rejected : forall k e level,
   (k = KMp -> unguarded e level) -> eff_gen k e level 0 = Raise ValueError.
-Proof. intros. rewrite eff_gen_eq_model. apply eff_zero; assumption. Qed.
+Proof. exact C15_zero_rejected_holds. Qed.
 
 (* full statement "effective_n_jobs(0) raises ValueError in every backend and every environment" is FALSE of the code:
    MultiprocessingBackend.effective_n_jobs tests its nesting guards before n_jobs == 0 and answers 1
    (witness: a worker thread below nesting level 0); visible through joblib.effective_n_jobs(0). *)
 Theorem C15_zero_rejected_refuted : exists e level,
   eff_gen KMp e level 0 = Ok 1.
-Proof.
-  exists {| e_mp_none := false; e_cpus := 4; e_daemon := false; e_depth := 0; e_main := false |}, 1.
-  vm_compute. reflexivity.
-Qed.
+Proof. exact C15_zero_rejected_refuted_holds. Qed.
 
 (* ... but a Parallel CALL with n_jobs = 0 is rejected by every backend in every environment: the sequential backend
    that MultiprocessingBackend falls back to is configured with the same n_jobs and rejects it *)
@@ -79,7 +65,7 @@ Proof. exact configure_zero. Qed.
 Theorem C15_one_is_sequential : forall b e,
   configure b e 1 = Ok ({| bkind := KSeq; blevel := blevel b |}, 1) /\
   forall s, worker_site s {| bkind := KSeq; blevel := blevel b |} = s.
-Proof. intros. split; [apply configure_one | reflexivity]. Qed.
+Proof. exact C15_one_is_sequential_holds. Qed.
 
 (* configure never invents workers: it keeps the resolved number, or falls back to sequential exactly when it is 1 *)
 Theorem C15_configure : forall b e n b' eff,
@@ -94,10 +80,7 @@ Theorem C15_cpu_count : forall os_raw aff cg loky_env,
   (forall c, 1 <= c -> (c = os_count os_raw \/ aff = Some c \/ cg = Some c \/ loky_env = Some c) -> v <= c) /\
   v = Z.max 1 (Z.min (os_count os_raw) (Z.min (orelse aff (os_count os_raw))
                  (Z.min (orelse cg (os_count os_raw)) (orelse loky_env (os_count os_raw))))).
-Proof.
-  intros. rewrite gen_cpu_count_eq. eexists; split; [reflexivity|]. split; [apply cpu_count_ge1|].
-  split; [intros c Hc H; apply cpu_count_le_constraint; assumption | apply cpu_count_is_min].
-Qed.
+Proof. exact C15_cpu_count_holds. Qed.
 
 (* process backends reached from a worker thread below level 0, or inside a daemonic process (a
    multiprocessing worker), or (multiprocessing) inside a loky worker, resolve to one worker: no new process *)
@@ -105,11 +88,7 @@ Theorem C15_nested_process_backend_is_sequential : forall e level n,
   n <> 0 ->
   ((e_daemon e = true \/ (e_main e = false /\ level <> 0)) -> eff_gen KLoky e level n = Ok 1) /\
   ((e_daemon e = true \/ e_depth e > 0 \/ (e_main e = false /\ level <> 0)) -> eff_gen KMp e level n = Ok 1).
-Proof.
-  intros e level n Hn. rewrite !eff_gen_eq_model. split; intros H.
-  - apply eff_guarded_loky; assumption.
-  - apply eff_guarded_mp; assumption.
-Qed.
+Proof. exact C15_nested_process_backend_is_sequential_holds. Qed.
 
 (* default nesting: level 0 -> threads, level >= 1 -> sequential; and for EVERY tree of nested calls
    that leave the backend to the defaults (induction on the tree):
@@ -124,11 +103,7 @@ Theorem C15_nesting :
   (forall cpus n children, n <> 0 -> resolve cpus n <> 1 -> default_tree (Call None n children) = true ->
      procs (top_site cpus) (Call None n children) = resolve cpus n) /\
   (forall c cpus, default_tree c = true -> procs (top_site cpus) c = frontier cpus c).
-Proof.
-  split; [exact nested_level0|]. split; [exact nested_level_ge1|]. split; [exact procs_below_worker|].
-  split; [|exact procs_top_frontier].
-  intros cpus n children Hn Hr Hd. apply procs_top_parallel; assumption.
-Qed.
+Proof. exact C15_nesting_holds. Qed.
 
 (* non-vacuity: hypotheses of the implications above are satisfiable, on non-trivial data *)
 Example C15_example_env : unguarded {| e_mp_none := false; e_cpus := 16; e_daemon := false; e_depth := 0; e_main := true |} 0.
